@@ -102,6 +102,12 @@ func loopPos(h *ssa.BasicBlock) token.Pos {
 
 func (c *Ctx) oblige(s *State, kind, label, goal, human string, pos token.Pos) {
 	if goal == "true" {
+		// discharged by the generator itself (the goal folded to true): nothing to ask a solver, but the NAME is remembered
+		// for the baseline, so that the same obligation is recognised when a change makes it non-trivial and undecidable
+		if c.trivialNames == nil {
+			c.trivialNames = map[string]bool{}
+		}
+		c.trivialNames[(&Obligation{Func: c.name, Kind: kind, Label: label}).Name()] = true
 		return
 	}
 	o := &Obligation{Func: c.name, Kind: kind, Label: label, Goal: human, PathID: s.pathID}
